@@ -59,6 +59,15 @@ func ruleBCD(r *Report, p *Program) {
 	bad := ""
 	digitSeen := map[int64]bool{}
 	for _, pa := range w.Walk(enc, []*Term{{Op: "param", Name: "s", Typ: enc.Params[0].Type()}}, nil) {
+		if os.Getenv("UHLINT_DEBUG") == "B1" {
+			fmt.Fprintf(os.Stderr, "B1 path %s %s cond=%s\n", pa.Outcome, pa.Detail, cut(pa.State.Describe(), 300))
+			for _, rv := range pa.Results {
+				fmt.Fprintf(os.Stderr, "   result op=%s %s\n", rv.Op, cut(rv.String(), 300))
+			}
+			for _, e := range pa.Events {
+				fmt.Fprintf(os.Stderr, "   ev %s\n", cut(e.String(), 200))
+			}
+		}
 		if pa.Outcome != "return" {
 			bad = "path ends in " + pa.Outcome + ": " + pa.Detail
 			continue
@@ -143,6 +152,12 @@ func ruleBCD(r *Report, p *Program) {
 	for _, pa := range paths {
 		if os.Getenv("UHLINT_DEBUG") == "B2" {
 			fmt.Fprintf(os.Stderr, "B2 path %s %s cond=%s\n", pa.Outcome, pa.Detail, cut(pa.State.Describe(), 300))
+			for _, rv := range pa.Results {
+				fmt.Fprintf(os.Stderr, "   result op=%s %s\n", rv.Op, cut(rv.String(), 300))
+				for _, ra := range rv.Args {
+					fmt.Fprintf(os.Stderr, "      arg op=%s\n", ra.Op)
+				}
+			}
 			for _, e := range pa.Events {
 				fmt.Fprintf(os.Stderr, "   ev %s\n", cut(e.String(), 200))
 			}
@@ -179,6 +194,15 @@ func ruleBCD(r *Report, p *Program) {
 		}
 		if len(writes) == 0 && len(pa.Results) > 0 && pa.Results[0].Op == "strv" {
 			writes = pa.Results[0].Args // the text is returned as a whole instead of being written piecewise
+		}
+		if res := pa.Results; len(writes) == 0 && len(res) > 0 && res[0].Op == "conv" && len(res[0].Args) == 1 && isStringType(res[0].Typ) {
+			// string(bytes) of the characters collected in a byte slice
+			switch bs := res[0].Args[0]; bs.Op {
+			case "slicev":
+				writes = bs.Args
+			case "sref":
+				writes = srefElems(bs)
+			}
 		}
 		for _, v := range valuesOf(reg) {
 			covered[v] = true
